@@ -10,6 +10,9 @@ use crate::tape::{Fp, Tape};
 pub const RULE: &str = "C01's generator (long structured inputs that fill hash chains and slide the window; all levels/strategies/windowBits/memLevels/wrappers; gzip headers, dictionaries, chunk schedules, flush modes, deflateParams/deflateTune). The schedule is executed as the canonical application loop (each step supplies a chunk of new input and calls deflate with the step's output size until the chunk is consumed and a requested flush completed; deflateParams retried on BUF_ERROR), on zlib-ng 2.3.3 (libz-sys) and on libz_rs_sys. Oracle: identical total output bytes and both reach stream end (per-call movement is C16's business). A case is dropped (counted) when zlib-ng's own output fails the strict reference decoder (reference validity rule). Non-trivial = input >= 2 windows or >= 3 blocks, level >= 1, output not all stored; distinct by (config, data, schedule).";
 
 pub fn compare_runs(rs: &DefRun, ng: &DefRun) -> Option<(String, String)> {
+    if std::env::var("VERIF_TRACE").is_ok() {
+        eprintln!("TRACE outputs: zlib-rs {} bytes (fnv {:#x}), zlib-ng {} bytes (fnv {:#x})", rs.out.len(), crate::tape::fnv64(&rs.out), ng.out.len(), crate::tape::fnv64(&ng.out));
+    }
     if rs.finished != ng.finished {
         return Some(("finish/status".into(), format!("zlib-rs finished: {} (last rc {}), zlib-ng finished: {}", rs.finished, rc_name(rs.last_rc), ng.finished)));
     }
